@@ -423,6 +423,8 @@ def random_history(rng, mode, unsafe_ok=False):
                     need[i] = max(need.get(i, 1), newvals[a[0]].bit_length(), 1)
 
     while steps < 60 and (len(s.accepted) < target or rng.random() < 0.3):
+        if "add raised RecursionError" in s.counts:
+            break         # every later operation on this tree is slow and fails the same way
         steps += 1
         r = rng.random()
         if not s.accepted or r < 0.42:
@@ -494,6 +496,16 @@ def documented_examples():
         s.add({"a": 0}, "x", 1); s.add({"b": 0}, "z", 1); s.add({"a": 1}, "y", 2)
         s.assign()
         out.append(s)
+    # a field defined where the values come from different levels of the hierarchy: c exists under a=0 only,
+    # b is independent of a
+    s = Session(16)
+    s.add({}, "a"); s.add({}, "b")
+    s.call({}, {"a": 0})
+    s.add({"a": 0}, "c")
+    s.call({}, {"a": 0, "b": 1, "c": 2})
+    s.add({"a": 0, "b": 1, "c": 2}, "d")
+    s.assign()
+    out.append(s)
     return out
 
 
@@ -528,14 +540,27 @@ def run(chk):
     chk.design("BitFieldDesign", "BitFieldDesign_cover.cfg", label="action coverage (vacuity)",
                expect_actions=("AddAny", "SetAny", "AssignAny", "StartFirstFit", "PlaceFixedAny", "PlaceFloatAny",
                                "Finish"))
-    chk.design("BitFieldDesign", "BitFieldDesign_%s.cfg" % chk.tier, label="intended scan range")
+    chk.design("BitFieldDesign", "BitFieldDesign_quick.cfg",
+               label="length 4, <= 3 fields, every kind of definition, depth <= 2; intended scan range")
+    if not chk.quick:
+        chk.design("BitFieldDesign", "BitFieldDesign_thorough.cfg",
+                   label="length 4, <= 4 fields, automatic positions, depth <= 2; intended scan range")
+        r = chk.design("BitFieldDesign", "BitFieldDesign_cross.cfg", allow_error=True,
+                       label="length 5, 5 fields, independent scopes: first-fit is expected to fragment")
+        chk.extra["design_cross_scopes"] = (
+            "violates SuccessFirstFitCross only (first-fit leaves a gap when independent scopes cross; nested "
+            "hierarchies are not affected)" if (not r.ok and "SuccessFirstFitCross" in (r.error or ""))
+            else "unexpected: %s" % (r.error or "no violation")[:200])
+        if r.ok or "SuccessFirstFitCross" not in (r.error or ""):
+            raise MachineryError("BitFieldDesign_cross: expected a violation of SuccessFirstFitCross, got %s"
+                                 % (r.error or "no error"))
     r = chk.design("BitFieldDesign", "BitFieldDesign_ascoded.cfg", allow_error=True,
                    label="scan range one short, as rig codes it: expected to violate SuccessFirstFit")
     chk.extra["design_scan_as_coded"] = (
         "violates SuccessFirstFit (the model of range(0, length - n) refuses a layout that fits)"
-        if (not r.ok and "SuccessFirstFit" in (r.error or "")) else
+        if (not r.ok and "SuccessFirstFit is violated" in (r.error or "")) else
         ("no violation found" if r.ok else "job failed: %s" % (r.error or "")[:200]))
-    if r.ok or "SuccessFirstFit" not in (r.error or ""):
+    if r.ok or "SuccessFirstFit is violated" not in (r.error or ""):
         raise MachineryError("BitFieldDesign_ascoded: expected an invariant violation of SuccessFirstFit, got %s"
                              % (r.error or "no error"))
 
@@ -574,10 +599,11 @@ def run(chk):
         gen = small_case_random(rng, L)
         take(run_small(gen), "small3")
         n3 += 1
-    nrand = chk.pick(2200, 40000)
+    nrand = chk.pick(1600, 40000)
+    every = chk.pick(400, 2000)
     for i in range(nrand):
         mode = "auto" if i % 5 < 2 else "mixed"
-        take(random_history(rng, mode, unsafe_ok=(i % 40 == 7)), mode)
+        take(random_history(rng, mode, unsafe_ok=(i % every in (6, 7))), mode)
     for k, v in sorted(info.items()):
         chk.count(k, v)
     chk.rule = ("histories on real BitField objects: the documented hierarchies and full bit fields; every small "
